@@ -290,6 +290,18 @@ func (e Env) RunCase(in Input) (*vhlib.Case, error) {
 	}
 	if len(in.Hist2) > 0 {
 		c.Tags = append(c.Tags, "recovery")
+		for _, w := range mwAll[len(in.Hist):] {
+			if w.Compressed() {
+				c.Tags = append(c.Tags, "recovery-compressed-column")
+				break
+			}
+		}
+	}
+	for _, w := range mwAll[:len(in.Hist)] {
+		if w.Compressed() {
+			c.Tags = append(c.Tags, "compressed-column")
+			break
+		}
 	}
 	c.Nontrivial = in.K > 0
 	return c, nil
@@ -347,6 +359,16 @@ func GenHist(r *vhlib.Rand, n int, startID int, startTS int64) []WriteOut {
 		h = append(h, w)
 	}
 	return h
+}
+
+// BulkHists are fixed histories whose write-outs carry repetitive multi-flow data (columns stored compressed)
+func BulkHists() [][]WriteOut {
+	return [][]WriteOut{
+		{
+			{ID: 0, Iface: "eth0", TS: 1702000200, NV4: 1, NV6: 1, Drops: 0, Bulk: 48},
+			{ID: 1, Iface: "eth0", TS: 1702000500, NV4: 0, NV6: 0, Drops: 2, Bulk: 40},
+		},
+	}
 }
 
 // Fixed histories: the boundary cases
